@@ -1226,13 +1226,45 @@ func (*log).Publish
     // C17: a new segment is created in NewSegmentsVersion
     assert[version_new] arg2 == l.opts.Version.NewSegmentsVersion at call openWriter 1
     requires[locks] nolocks()
+// a live record with the key in segment i, record k
+pred keyAt(l *log, key []byte, i int, k int) :=
+    0 <= i && i < len(l.readers) && 0 <= k && k < len(l.readers[i].gitems) && recHasKey(l.readers[i].gfile, k, key)
+
 func (*log).ConsumeByKey
-    flags locks lockonly noframe
+    flags locks
     requires[locks] nolocks()
-    requires logWf(l)
+    requires logWf(l) && (forall i :: 0 <= i && i < len(l.readers) ==> l.readers[i].params.Keys == l.opts.KeyIndex)
+    requires[count] 1 <= maxCount && maxCount <= 1048576
+    assigns reader.index, reader.indexLastAccess, reader.messages, reader.messagesInuse
+    ensures[wf]       logWf(l)
+    ensures[noindex]  !l.opts.KeyIndex ==> is(err, ErrNoIndex)
+    // C09: only live messages with exactly the key, at or after the offset, in offset order
+    ensures[sound]    l.opts.KeyIndex && err == nil ==> forall j :: 0 <= j && j < len(ret1) ==>
+                          liveKey(l, key, ret1[j].Offset) && bseq(ret1[j].Key) == bseq(key) && (!relative(offset) ==> ret1[j].Offset >= offset)
+    ensures[order]    l.opts.KeyIndex && err == nil ==> forall a, b :: 0 <= a && a < b && b < len(ret1) ==> ret1[a].Offset < ret1[b].Offset
+    // nothing with the key is skipped before the first returned message ...
+    ensures[first]    l.opts.KeyIndex && err == nil && len(ret1) > 0 && offset != OffsetNewest ==>
+                          forall o int64 :: liveKey(l, key, o) && (relative(offset) || o >= offset) ==> ret1[0].Offset <= o
+    // ... and an empty answer means there is none at or after the offset: the iteration has reached NextOffset
+    ensures[end]      l.opts.KeyIndex && err == nil && len(ret1) == 0 ==> ret0 == logNext(l)
+                          && (offset != OffsetNewest ==> forall o int64 :: liveKey(l, key, o) ==> !relative(offset) && o < offset)
+    ensures[next]     l.opts.KeyIndex && err == nil && len(ret1) > 0 ==> ret0 == ret1[len(ret1)-1].Offset + 1
+    // proof hints: the segment just read is well formed again, the others were not touched
+    assert[h_cur]     rdWf(l.readers[segmentIndex]) at return 3
+    assert[h_others]  forall i :: 0 <= i && i < len(l.readers) && i != segmentIndex ==> rdWf(l.readers[i]) at return 3
     loop 1
-      invariant[wf]    logWf(l) && 0 <= segmentIndex && segmentIndex < len(l.readers) && rdr == l.readers[segmentIndex]
-      invariant[locks] held(&l.readersMu) == 1 && rdLocksFree() && ixLocksFree()
+      invariant[wf]     logWf(l) && l.opts.KeyIndex && 0 <= segmentIndex && segmentIndex < len(l.readers) && rdr == l.readers[segmentIndex]
+                            && (forall j :: 0 <= j && j < len(l.readers) ==> l.readers[j].params.Keys)
+      invariant[locks]  held(&l.readersMu) == 1 && rdLocksFree() && ixLocksFree()
+      invariant[hash]   decodeHash(bseq(hash)) == keyHash(bseq(key))
+      // the cursor within the current segment: the caller's offset in the first segment visited, OffsetOldest afterwards,
+      // and then the whole segment lies at or after the caller's offset
+      invariant[cursor] offset == old(offset) || (offset == message.OffsetOldest
+                            && (relative(old(offset)) || (forall k :: 0 <= k && k < len(rdr.gitems) ==> recOffset(rdr.gfile, k) >= old(offset))))
+      // the segments already passed hold no message with the key at or after the caller's offset
+      invariant[before] old(offset) != OffsetNewest ==> forall i, k :: 0 <= i && i < segmentIndex && keyAt(l, key, i, k) ==> !relative(old(offset)) && l.readers[i].gitems[k].Offset < old(offset)
+      // and the segments still ahead lie entirely at or after it
+      invariant[ahead]  forall i, k :: segmentIndex < i && i < len(l.readers) && 0 <= k && k < len(l.readers[i].gitems) ==> relative(old(offset)) || l.readers[i].gitems[k].Offset >= old(offset)
 func (*log).Delete
     flags locks only_locks only_struct noframe
     requires[locks] nolocks()
